@@ -654,13 +654,13 @@ class GraphParser:
                     n_trig = TaskTrigger.standardise_name(trig)
                     if n_trig != trig:
                         if offset:
-                            this = r'\b%s\b%s:%s(?!:)' % (
+                            this = r'(?<![\w\-+%%@])%s%s:%s(?![\w\-:])' % (
                                 re.escape(name),
                                 re.escape(offset),
                                 re.escape(trig)
                             )
                         else:
-                            this = r'\b%s:%s\b(?![\[:])' % (
+                            this = r'(?<![\w\-+%%@])%s:%s(?![\w\-\[:])' % (
                                 re.escape(name),
                                 re.escape(trig)
                             )
@@ -674,12 +674,13 @@ class GraphParser:
                         )
                     n_trig = TASK_OUTPUT_SUCCEEDED
                     if offset:
-                        this = r'\b%s\b%s(?!:)' % (
+                        this = r'(?<![\w\-+%%@])%s%s(?!:)' % (
                             re.escape(name),
                             re.escape(offset)
                         )
                     else:
-                        this = r'\b%s\b(?![\[:])' % re.escape(name)
+                        this = r'(?<![\w\-+%%@])%s(?![\w\-+%%@\[:])' % (
+                            re.escape(name))
                     that = f"{name}{offset}:{n_trig}"
                     expr = re.sub(this, that, expr)
 
